@@ -98,7 +98,11 @@ func (g *ExprGen) leaf(k model.Kind) gast.Expr {
 	}
 	if g.Env != nil && g.R.Intn(100) >= bias {
 		if names := g.Env.byKind[k]; len(names) > 0 {
-			return gast.Ident{Name: names[g.R.Intn(len(names))]}
+			n := names[g.R.Intn(len(names))]
+			if g.R.Intn(12) == 0 {
+				n = "$" + n // the legacy "$" prefix names the same field / variable
+			}
+			return gast.Ident{Name: n}
 		}
 	}
 	if k == model.KNull {
